@@ -25,7 +25,8 @@ func init() {
 			"R4 the evaluator reports (state, changed) and its callers pair the action lists with the state for the 4 valuations of (active, changed); " +
 			"R5 the set-value point takes type/value/text/target from the action's fields and the sender stamps the rule id on points for foreign nodes; " +
 			"R6 a schedule condition takes the result of the schedule predicate applied to the trigger point's time, only for trigger points; " +
-			"R7 the stored state a point's result is compared with is the current one: no path leads from a store into a condition's state to a comparison with a copy of that condition taken before the store. " +
+			"R7 the stored state a point's result is compared with is the current one: no path leads from a store into a condition's state to a comparison with a copy of that condition taken before the store; " +
+			"R8 the subscription on up.<rule parent>.* hands {node id chunk, decoded points} unchanged to the evaluator, and no decision that drops a batch on the way depends on a snapshot of the configuration taken before the subscription. " +
 			"Not decided: which point of a history is the latest matching one, tick timing, delivery of points by the bus, NaN operands.",
 		Assumptions: []string{
 			"struct tags `point:\"…\"`/`child:\"…\"` are the configuration protocol between UI and rule client (they identify the condition, rule and action fields)",
@@ -46,6 +47,7 @@ func runC13(c *kit.Ctx) {
 	r5 := c.Rule("R5", "set-value point mapping and origin stamp", 2)
 	r6 := c.Rule("R6", "schedule condition takes the schedule predicate at the trigger time", 2)
 	r7 := c.Rule("R7", "a point's result is compared with the current stored state of its condition", 1)
+	r8 := c.Rule("R8", "every batch received from the parent's subtree reaches the evaluator", 2)
 	if len(m.evals) == 0 {
 		c.Fatalf("no function stores into the active field of a %s list element", m.cond.Obj().Name())
 	}
@@ -57,6 +59,7 @@ func runC13(c *kit.Ctx) {
 		c13R4(c, m, e, roles, r4)
 		c13R6(c, m, e, r6)
 		c13R7(c, m, e, r7)
+		c13R8(c, m, e, r8)
 	}
 	c13R5(c, m, r5)
 }
